@@ -10,6 +10,17 @@ def view_case(ids, valid):
     return Case("view-%s-up-%s" % ("_".join(map(str, ids)), "_".join(map(str, valid))), ops, True, "exhaustive")
 
 
+def flap_case(ids, valid, flap):
+    live = sorted(set(valid) | set(flap))
+    ops = ["node ids=%s valid=%s flap=%s local=%d" % (",".join(map(str, ids)), ",".join(map(str, valid)),
+                                                      ",".join(map(str, flap)), n) for n in valid]
+    # the recovered nodes themselves hold the recovered view
+    ops += ["node ids=%s valid=%s local=%d" % (",".join(map(str, ids)), ",".join(map(str, live)), f) for f in flap]
+    ops.append("verdict")
+    return Case("flap-%s-up-%s-back-%s" % ("_".join(map(str, ids)), "_".join(map(str, valid)), "_".join(map(str, flap))),
+                ops, True, "exhaustive")
+
+
 def gen_distro(rng, tier):
     cases = []
     idsets = [list(range(1, n + 1)) for n in range(1, 6)]
@@ -19,6 +30,13 @@ def gen_distro(rng, tier):
         for k in range(1, len(ids) + 1):
             for valid in itertools.combinations(ids, k):
                 cases.append(view_case(ids, list(valid)))
+    # a node that timed out and reports in again: the owner range must follow the recovered view
+    for ids in ([1, 2], [1, 2, 3], [1, 2, 3, 4]) if tier == "quick" else idsets[1:]:
+        for k in range(1, len(ids)):
+            for valid in itertools.combinations(ids, k):
+                rest = [i for i in ids if i not in valid]
+                for f in rest:
+                    cases.append(flap_case(ids, list(valid), [f]))
     return cases
 
 
@@ -30,7 +48,7 @@ class C14(Prop):
     models = [ModelRun("distro", gen_distro, lambda c: len(c.ops) >= 2, spec_needs_impl=True, shrinkable=False, rule=(
         "exhaustive: every cluster size 1..5 x every non-empty subset of live nodes x every live node as the local "
         "node (one real InnerNodeManage actor each; the nodes that are down are starved of pings past the genuine "
-        "15 s timeout), hash residues 0..59 (lcm(1..5)) through real keys hashed by the implementation; "
+        "15 s timeout; plus views in which a starved node reports in again and must be counted as live after the next status tick), hash residues 0..59 (lcm(1..5)) through real keys hashed by the implementation; "
         "non-trivial = at least one node op + verdict; distinct = sha1 of the op list"))]
     trusted_base = [
         "model of get_current_process_range / is_range / route_addr is hand-written (RNacos/Model/Distro.lean)",
